@@ -320,9 +320,9 @@ Quiescent(s, sc, e, rb, dropped) ==
                   ELSE IF Fam(sc) = "C20" /\ dropped THEN "C20" ELSE Own(sc, "C06")
         eofowed(c) ==
             /\ s.fault[c + 1] \in {"none", "half"}
-            /\ DonePrefix(s, sc, c, 1) = Len(Slots(s, c))
+            \* every response has reached the client (a handler may still be busy discarding an
+            \* unsent request body inside respond(): that must not keep the sending side open)
             /\ s.fcount[c + 1] >= Len(Slots(s, c))
-            /\ BodiesSent(s, sc, c)
             /\ \/ Stopped(s, sc, c)
                \/ s.fault[c + 1] = "half" /\ \A m \in 0..LastIdx(sc, c) : (M(sc, c, m).cls = "ok" => (m \in s.deliv[c + 1] \/ ~Complete(s, sc, c, m)))
         stuckread(c) == \E m \in 0..(NM(sc, c) - 1) : s.rbusy[c + 1][m + 1]
